@@ -6,16 +6,16 @@ STATEFUL = True
 READY = True
 THEOREMS = ["C03.recCheck_iff", "C03.accepted_no_cycle", "C03.stack_bound", "C03.stack_bound_parse",
             "C03.run_terminates", "C03.parse_terminates", "C03.parse_total"]
-RULE = ("one case = one generated grammar (unbiased / mostly non-left-recursive / shaped / LL(1)-ish / hidden-recursion "
+RULE = ("one case = one generated grammar (unbiased / mostly non-left-recursive / shaped / LL(1)-ish / hidden-recursion / DFS-bookkeeping "
         "generators, names permuted), constructed with smart_factorization True and False, each followed by every token "
         "string up to the tier's length plus sampled sentences; the real constructor and parse run under a line-event "
         "budget (sys.settrace); non-trivial = at least one tree and one ParsingError, or the reference test says "
         "left-recursive; distinct by protocol text")
 TRUSTED = ["re (lexemes are found by the harness with the tokenizer's own pattern)",
-           "sys.settrace line counter as the observable for non-termination (budget 2000000 line events per call, inputs of at most 5 tokens: the largest count seen on the unchanged tree is ~11000)"]
+           "sys.settrace line counter as the observable for non-termination (budget 300000 line events per call, inputs of at most 5 tokens: the largest count seen on the unchanged tree is ~11000)"]
 ASSUMPTIONS = ["the equivalence 'cycle in the factorised dictionary <=> the user's grammar is left-recursive' is not a theorem; "
                "it is covered by the oracle (reference test on the user's productions) on every generated grammar"]
-BUDGET = 2000000
+BUDGET = 300000
 
 
 def impl(case):
@@ -49,9 +49,9 @@ def oracle(case, replies):
 
 def gen_cases(rng, tier):
     if tier == "quick":
-        yield from ll.gen_ll_cases(rng, 1500, 3, sentences=12, hidden_share=0.3, diags=(), sent_maxlen=5)
+        yield from ll.gen_ll_cases(rng, 1500, 3, sentences=12, hidden_share=0.25, dfs_share=0.2, diags=(), sent_maxlen=5)
     else:
-        yield from ll.gen_ll_cases(rng, 30000, 4, sentences=20, hidden_share=0.3, diags=(), sent_maxlen=5)
+        yield from ll.gen_ll_cases(rng, 30000, 4, sentences=20, hidden_share=0.25, dfs_share=0.2, diags=(), sent_maxlen=5)
         yield from ll.tiny_grammars(rng, limit=20000, inputs_len=4)
 
 
@@ -60,7 +60,7 @@ def corpus():
 
 
 def search_cases(rng, tier):
-    yield from ll.gen_ll_cases(rng, 4000 if tier == "quick" else 40000, 2, sentences=5, hidden_share=0.8, diags=(), sent_maxlen=4)
+    yield from ll.gen_ll_cases(rng, 4000 if tier == "quick" else 40000, 2, sentences=5, hidden_share=0.45, dfs_share=0.45, diags=(), sent_maxlen=4)
 
 
 def nontrivial(case, replies):
